@@ -33,7 +33,7 @@ class Obligation:
     def __init__(self, name: str, harness: Callable, bounds: str = "", replay: Optional[Callable] = None,
                  key: Optional[Callable] = None, functions: Optional[List[Any]] = None,
                  stubs: Optional[List[str]] = None, expect_reach: Optional[List[str]] = None,
-                 query_timeout_ms: int = 30000, max_paths: int = 400000, group: str = ""):
+                 query_timeout_ms: int = 30000, max_paths: int = 400000, group: str = "", mode: str = "incremental"):
         self.name = name
         self.harness = harness
         self.bounds = bounds
@@ -45,6 +45,7 @@ class Obligation:
         self.query_timeout_ms = query_timeout_ms
         self.max_paths = max_paths
         self.group = group or name
+        self.mode = mode
 
 
 _OBLIGATIONS: Dict[str, Obligation] = {}
@@ -55,7 +56,7 @@ def _worker(task):
     from .engine import Engine
     name, prefixes, budget_s, chunk_paths = task
     ob = _OBLIGATIONS[name]
-    eng = Engine(query_timeout_ms=ob.query_timeout_ms, max_paths=10 ** 9, max_seconds=budget_s, name=name)
+    eng = Engine(query_timeout_ms=ob.query_timeout_ms, max_paths=10 ** 9, max_seconds=budget_s, name=name, mode=ob.mode)
     t0 = time.time()
     open_prefixes: List[Any] = []
     err = None
@@ -99,24 +100,39 @@ def explore_all(obligations: List[Obligation], nproc: int, total_seconds: float,
     pending = [(o.name, [[]]) for o in obligations]
     from .engine import Stats
     agg = {o.name: Stats() for o in obligations}
-    with ctx.Pool(processes=nproc) as pool:
-        inflight = []
+    pool = ctx.Pool(processes=nproc)
+    try:
+        inflight = []   # (handle, name, n_prefixes, hard_deadline)
 
         def submit(name, prefixes):
             remaining = max(5.0, deadline - time.time())
-            inflight.append(pool.apply_async(_worker, ((name, prefixes, remaining, CHUNK_PATHS),)))
+            ob = _OBLIGATIONS[name]
+            grace = 3.0 * ob.query_timeout_ms / 1000.0 + 60.0
+            h = pool.apply_async(_worker, ((name, prefixes, remaining, CHUNK_PATHS),))
+            inflight.append((h, name, len(prefixes), time.time() + CHUNK_SECONDS + grace))
 
         for name, pf in pending:
             submit(name, pf)
         while inflight:
             still = []
             progressed = False
-            for h in inflight:
+            current, inflight = inflight, []
+            for item in current:
+                h, name, npf, hard = item
                 if not h.ready():
-                    still.append(h)
+                    if time.time() > hard:
+                        progressed = True
+                        results[name]["inconclusive"].append(
+                            "a worker exploring %d prefix(es) did not return in time (solver ignored its timeout, or the worker died)" % npf)
+                    else:
+                        still.append(item)
                     continue
                 progressed = True
-                r = h.get()
+                try:
+                    r = h.get()
+                except BaseException as e:  # noqa
+                    results[name]["errors"].append("worker failed: %r" % (e,))
+                    continue
                 res = results[r["name"]]
                 st = Stats()
                 for k, v in r["stats"].items():
@@ -145,18 +161,17 @@ def explore_all(obligations: List[Obligation], nproc: int, total_seconds: float,
                         res["inconclusive"].append("path budget (%d) exhausted with %d open prefixes" % (ob.max_paths, len(r["open"])))
                     else:
                         op = r["open"]
-                        # split the open prefixes over several workers
                         k = max(1, min(nproc, len(op)))
                         for i in range(k):
                             part = op[i::k]
                             if part:
-                                still.append(None)  # placeholder, replaced below
-                                still.pop()
-                                remaining = max(5.0, deadline - time.time())
-                                still.append(pool.apply_async(_worker, ((r["name"], part, remaining, CHUNK_PATHS),)))
-            inflight = still
+                                submit(r["name"], part)
+            inflight = still + inflight
             if not progressed:
                 time.sleep(0.02)
+    finally:
+        pool.terminate()
+        pool.join()
     for o in obligations:
         results[o.name]["stats"] = agg[o.name].to_json()
     return results
@@ -224,7 +239,7 @@ def run_check(prop_id: str, level: str, tier: str, check_module: str, obligation
             if r["reach"].get(lab, 0) == 0:
                 reach_missing.append("%s: assertion '%s' was never reached (vacuous harness?)" % (ob.name, lab))
         per_ob.append({"name": ob.name, "bounds": ob.bounds, "paths": st["paths"], "queries": st["queries"],
-                       "solver_s": st["solver_s"], "assertions": r["check_labels"],
+                       "solver_s": st["solver_s"], "assertions": r["check_labels"], "reached": r["reach"],
                        "violation_candidates": r["n_violations"]})
         if r["samples"] and len(samples) < 8:
             samples.append({"obligation": ob.name, "bounds": ob.bounds, "path": r["samples"][0]})
